@@ -77,14 +77,16 @@ def _mk_source(rnd, names, auto):
     return m, roots
 
 
-def _target(kind, rnd, names, src):
+def _target(kind, rnd, names, src, held):
     import dd.autoref as A
     if kind == 'fresh':
         return A.BDD()
     if kind == 'same':
         return src
     if kind == 'same-order':
-        return A.BDD(dict(src.vars))
+        t = A.BDD(dict(src.vars))
+        _populate(t, rnd, names, held)
+        return t
     o = names[:]
     while True:
         rnd.shuffle(o)
@@ -94,7 +96,25 @@ def _target(kind, rnd, names, src):
     t = A.BDD(lv)
     if rnd.random() < .5:
         t.declare('extra')
+    _populate(t, rnd, names, held)
     return t
+
+
+def _populate(t, rnd, names, held):
+    """the receiving manager already holds functions of its own (in two thirds of the cases), built the way the source builds its
+    nodes, so that node numbers and (level, low, high) triples of the file coincide with nodes of the receiver that mean other
+    functions"""
+    if rnd.random() < .34:
+        return
+    tb = t._bdd
+    n = len(names)
+    for _ in range(rnd.randint(1, 4)):
+        held.append(t._wrap(build(tb, rnd.getrandbits(1 << n), names)))
+    # the same small formulas over the receiver's own variables at the same levels as in the source (isomorphic tables)
+    lv = sorted(tb.vars, key=tb.vars.get)
+    for _ in range(rnd.randint(0, 2)):
+        x, y = rnd.sample(lv[:len(names)], 2)
+        held.append(t.add_expr(rnd.choice(['{x} /\\ {y}', '{x} \\/ ~ {y}', '{x} <=> {y}']).format(x=x, y=y)))
 
 
 def _judge(tm, loaded, roots, as_dict, names, site, live):
@@ -117,8 +137,8 @@ def _judge(tm, loaded, roots, as_dict, names, site, live):
                 tl |= 1 << k
         d = den(tb, node, allnames)
         require(d == tl, site + '#post:same-function', lambda: f'root {i}: got {d} want {tl}; target order {tb.vars}')
+    gc.collect()      # before the counts are read: handles that are only waiting for the cyclic collector are not live
     ext = wf(tb, None)
-    gc.collect()
     cnt = {}
     for h in live():
         if h.bdd is tm:
@@ -130,6 +150,15 @@ def _judge(tm, loaded, roots, as_dict, names, site, live):
 
 @_in_tmp
 def case_roundtrip(c, res, td):
+    held = []
+    try:
+        return _case_roundtrip(c, res, td, held)
+    finally:
+        # the receiver's own functions are kept in a list of this frame, not on the manager (no reference cycle manager <-> handle)
+        del held[:]
+
+
+def _case_roundtrip(c, res, td, HELD):
     import dd.autoref as A
     import dd.bdd as B
     rnd = random.Random(c['seed'])
@@ -144,7 +173,7 @@ def case_roundtrip(c, res, td):
     key = (fmt, kind, as_dict, tuple(t for _, t in roots))
     if fmt == 'json' and all(abs(h.node) == 1 for h in handles) and False:
         return None
-    tm = _target(kind, rnd, names, src)
+    tm = _target(kind, rnd, names, src, HELD)
     loaded = None
     if fmt == 'pickle':
         src.dump('f.p', rdump)
@@ -188,7 +217,8 @@ def case_roundtrip(c, res, td):
             raise Viol(site + '#raises:order-of-fewer-variables', 'accepted')
         loaded = C.load_json('f.json', tm, load_order=lo) if lo else tm.load('f.json')
         res.count('json-roundtrips')
-    _judge(tm, loaded, roots, as_dict, names, site, lambda: handles + (list(loaded.values()) if isinstance(loaded, dict) else list(loaded)))
+    _judge(tm, loaded, roots, as_dict, names, site,
+           lambda: handles + (list(loaded.values()) if isinstance(loaded, dict) else list(loaded)) + list(HELD))
     # pickle without roots: stores every node and loads back without error
     if rnd.random() < .4:
         src.dump('all.p')
